@@ -610,7 +610,8 @@ func One(eco string, r *rand.Rand) string {
 		return s
 	case "composer":
 		if chance(r, 1, 12) {
-			return pickE(eco, r, "dev-main", "dev-master", "dev-feature/x", "main", "master", "feature-foo", "1.x-dev", "dev-fix", "release/1.0")
+			return pickE(eco, r, "dev-main", "dev-master", "dev-feature/x", "main", "master", "feature-foo", "1.x-dev", "dev-fix", "release/1.0",
+				"dev-2.x", "dev-10.x", "dev-1.9.x", "dev-1.10.x", "dev-15-fix-login", "dev-11", "dev-1a", "2.x-dev", "10.x-dev", "dev-9.x")
 		}
 		s := pickE(eco, r, "", "", "v") + strings.Join(core(r, 1, 4, lz), ".")
 		switch r.IntN(5) {
@@ -1131,7 +1132,7 @@ func Cluster(eco string, r *rand.Rand) []string {
 		heads := append([]string{}, out[:min(len(out), 12)]...)
 		if eco == "composer" {
 			heads = append(heads, "dev-main", "dev-feature", "dev-master", "dev-fix", "dev-main", "dev-feature")
-			out = append(out, "dev-main", "dev-feature", "dev-fix")
+			out = append(out, "dev-main", "dev-feature", "dev-fix", "dev-2.x", "dev-10.x", "dev-15-fix-login", "dev-1.9.x", "dev-1.10.x", "dev-11", "dev-9.x")
 		}
 		words := []string{"as", "and", "or", "to", "@", "-", "as"}
 		for k := 0; k < 3; k++ {
